@@ -99,7 +99,8 @@ def _space():
                         continue
                     for s in SPELLS:
                         out.append(dict(form="slice1", n=n, a=a, b=b, st=step, use=use, spell=s))
-    sp["slice1"] = out
+    sp["slice1"] = out + [dict(c, decl="inferred") for c in out if c["spell"] == "lit"]
+    sp["elem1"] += [dict(c, decl="inferred") for c in sp["elem1"] if c["spell"] == "lit"]
     out = []
     for n, m in itertools.product(range(1, 4), range(1, 4)):
         for pos in (0, 1):
@@ -114,7 +115,7 @@ def _space():
                             continue
                         for s in SPELLS:
                             out.append(dict(form="slice2", n=n, m=m, pos=pos, a=a, b=b, o=o, use=use, spell=s))
-    sp["slice2"] = out
+    sp["slice2"] = out + [dict(c, decl="inferred") for c in out if c["spell"] == "lit"]
     out = []
     for n in range(1, 5):
         for lo in range(0, n + WIN + 1):
@@ -174,9 +175,21 @@ class Builder:
         self.lines = []  # (modelica text, reference equation or None)
         self.neg_literal = False
         self.lit_i = 0
+        self.inferred_decl = False
+        self.inferred = {}  # name -> dims of the arrays declared with ':' dimensions
+        self.inferred_vals = {}
 
     def var(self, name, dims=()):
+        if self.inferred_decl and name in ("x", "A") and dims:
+            # "parameter Real x[:] = {..}": the dimensions come from the binding value, nothing is filled in later
+            self.inferred[name] = list(dims)
+            return
         self.vars.append(D.var(name, dims=list(dims)))
+
+    def inferred_value(self, dims):
+        if len(dims) == 1:
+            return ["arrlit", [["real", self.lit()] for _ in range(dims[0])]]
+        return ["arrlit", [["arrlit", [["real", self.lit()] for _ in range(dims[1])]] for _ in range(dims[0])]]
 
     def num(self, v):
         """Text of the integer v in the case's spelling."""
@@ -207,6 +220,8 @@ class Builder:
         self.lines.append((text, ref))
 
     def fill_vec(self, name, n):
+        if name in self.inferred:
+            return
         vals = [self.lit() for _ in range(n)]
         self.eq("%s = {%s};" % (name, ", ".join(vals)), ["eq", ["arr", name], ["arrlit", [["real", v] for v in vals]]])
 
@@ -217,6 +232,8 @@ class Builder:
             self.eq("%s[%s] = %s;" % (name, ",".join(str(i) for i in ix), v), ["eq", ["idx", name] + list(ix), ["real", v]])
 
     def fill_mat(self, name, n, m):
+        if name in self.inferred:
+            return
         self.fill_elems(name, [(i, j) for i in range(1, n + 1) for j in range(1, m + 1)])
 
     def fill_scalar(self, name):
@@ -228,11 +245,17 @@ class Builder:
         for name, val in self.consts.items():
             out += "  constant Integer %s = %d;\n" % (name, val)
         out += "".join(D.print_var(v) for v in self.vars)
+        for name, dims in self.inferred.items():
+            val = self.inferred_vals.setdefault(name, self.inferred_value(dims))
+            out += "  parameter Real %s[%s] = %s;\n" % (name, ",".join(":" for _ in dims), D.pe(val))
         out += "equation\n" + "".join("  " + t + "\n" for t, _ in self.lines) + "end M;\n"
         return out
 
     def model(self):
         vs = [D.var(n, "Integer", "constant", value=["int", v]) for n, v in self.consts.items()] + self.vars
+        for name, dims in self.inferred.items():
+            val = self.inferred_vals.setdefault(name, self.inferred_value(dims))
+            vs.append(D.var(name, prefix="parameter", dims=dims, value=val))
         return {"name": "M", "vars": vs, "funcs": [], "eqs": [r for _, r in self.lines], "ieqs": []}
 
 
@@ -272,7 +295,10 @@ def build(case):
     """-> dict(text, model, verdict, form (signature form), side, labels, empty)."""
     f = case["form"]
     B = Builder(case.get("spell", "lit"))
+    B.inferred_decl = case.get("decl") == "inferred"
     labels = ["form:" + f]
+    if B.inferred_decl:
+        labels.append("decl:inferred_size")
     if "spell" in case:
         labels.append("spell:" + case["spell"])
     empty = False
